@@ -57,6 +57,7 @@ ASSUMPTIONS = [
     "record-layer framing of these messages is C14/C08's domain",
 ]
 DECODE_ERRORS = (SyntaxError, TLSIllegalParameterException, TLSDecodeError)
+from tlslite.utils.codec import BadCertificateError     # noqa
 
 
 def init(tier, seed):
@@ -546,6 +547,8 @@ def check(case):
         return check_raw(case)
     if case["src"] == "kat":
         return check_kat(case)
+    if case["src"] == "overrun":
+        return check_overrun(case)
     if case["src"] == "codec":
         return check_codec(case)
     if case["src"] == "reuse":
@@ -606,6 +609,15 @@ def check(case):
         return good(nt=nt, labels=labels)
     try:
         out = reencode(kind, pdata, ctx)
+    except BadCertificateError as e:
+        if mut[0] == "prefix":
+            # cutting an encoding short is a framing error (decode_error on
+            # the wire), not a verdict on the certificate inside
+            return bad("framing-error-reported-as-bad-certificate:%s" % cls,
+                       "%s cut to %d of %d bytes: %r" % (
+                           name, len(pdata), len(data), e), nt=nt,
+                       labels=labels)
+        return good(nt=nt, labels=labels + ["rejected"])
     except DECODE_ERRORS:
         return good(nt=nt, labels=labels + ["rejected"])
     except AssertionError:
@@ -1281,6 +1293,41 @@ def check_kat(case):
     return good(labels=labels)
 
 
+def check_overrun(case):
+    """An inner length that reaches beyond the end of its enclosing vector
+    (here: cert_data of a TLS 1.3 CertificateEntry beyond certificate_list)
+    is a framing error: DecodeError (decode_error on the wire), whatever the
+    bytes in between look like."""
+    cor = corpus()
+    e = cor[case["idx"] % len(cor)]
+    data = e["bytes"]
+    labels = ["src=overrun"]
+    if data[0] != 11 or tuple(e["ctx"]["ver"]) != (3, 4) or len(data) < 20:
+        return good(nt=False, labels=labels + ["not-applicable"])
+    b = bytearray(data)
+    o = 4 + 1 + b[4]                    # certificate_list length field
+    ll = int.from_bytes(b[o:o + 3], "big")
+    if ll < 10:
+        return good(nt=False, labels=labels + ["not-applicable"])
+    first = o + 3                       # first entry: cert_data length field
+    over = [ll - 2, ll, ll + 1, 0xffffff][case["how"] % 4]
+    b[first:first + 3] = over.to_bytes(3, "big")
+    labels.append("len=%s" % ["list-2", "list", "list+1", "max"][
+        case["how"] % 4])
+    try:
+        parse_msg(bytes(b), e["ctx"])
+    except BadCertificateError as ex:
+        return bad("framing-error-reported-as-bad-certificate:certificate",
+                   "%s: cert_data length %d in a certificate_list of %d "
+                   "bytes: %r" % (e.get("name"), over, ll, ex),
+                   labels=labels)
+    except DECODE_ERRORS:
+        return good(labels=labels)
+    return bad("lenient-parse:certificate:overrun",
+               "%s: cert_data length %d in a certificate_list of %d bytes "
+               "accepted" % (e.get("name"), over, ll), labels=labels)
+
+
 def _dc_object(spec):
     """DelegatedCredential with independent scheme fields."""
     from tlslite.x509 import DelegatedCredential, Credential
@@ -1673,6 +1720,11 @@ def explicit(tier, seed):
                            "mut": ["none"]}
     for name in sorted(EMPTY_KAT):
         yield {"src": "kat", "name": name, "mut": ["none"]}
+    for i, e in enumerate(corpus()):
+        if e["bytes"][0] == 11 and tuple(e["ctx"]["ver"]) == (3, 4):
+            for how in range(4):
+                yield {"src": "overrun", "idx": i, "how": how,
+                       "mut": ["none"]}
     for spec in REC_EXPLICIT:
         try:
             L = len(rec_build(spec).write())
